@@ -166,6 +166,42 @@ Proof. vm_compute. reflexivity. Qed.
 
 (* ---- pre-repair behaviour ------------------------------------------------------ *)
 
+(* c10_replay_memory_unbounded: a campaign - "secret" is learned, "my secret"
+   is blocked, then a burst of 300 pairwise different inputs "<k> secret" is
+   blocked (memory: 301 hashes, one per scan block), the rule is forgotten, and
+   the FIRST input of the campaign is still refused (a replay block), while a
+   fresh input with the same words is allowed: the rule really is gone. *)
+Definition flood := [OLearn s_learn; OFilter x_secret] ++ burst_ops [] [32;115;101;99;114;101;116] 1 300
+                    ++ [OForget (s_key s_learn)].
+Example ex_flood :
+  let st := fst (mrun cfg0 st0 flood) in
+  let rs := snd (mrun cfg0 st0 flood) in
+  length rs = 301%nat /\ length (filter scan_blocked rs) = 301%nat /\ length (m_blocked st) = 301%nat /\
+  nth_error (burst_contents [] [32;115;101;99;114;101;116] 1 300) 11 = Some [49;50;32;115;101;99;114;101;116] /\
+  (let r := snd (mfilter cfg0 st x_secret) in (r_kind r, r_allowed r)) = (Replay, false) /\
+  (let r := snd (mfilter cfg0 st x_Secret) in (r_kind r, r_allowed r)) = (Scanned, true).
+Proof. vm_compute. repeat split; reflexivity. Qed.
+
+(* c10_shipped_validators_exact: ["C:\\temp\\", [[[[[[1]]]]]]] as json.loads sees it
+   (a string, then six nested lists): depth 7; JSONValidator(max_depth=5)
+   rejects it with a message whatever else is configured, so check() blocks;
+   max_depth=7 accepts; the early return of _measure_depth reports 6 (the first
+   level beyond the limit), not 7; an unparsable content and an over-long one
+   are rejected too. *)
+Definition doc7 := JArr [JAtom; JArr [JArr [JArr [JArr [JArr [JArr [JAtom]]]]]]].
+Example ex_json :
+  depth doc7 = 7 /\ measure_depth 5 doc7 0 = 6 /\ measure_depth 7 doc7 0 = 7 /\
+  v_json 5 100 (fun _ => PTree doc7) x_hello = VRet false true /\
+  v_json 7 100 (fun _ => PTree doc7) x_hello = VRet true false /\
+  v_json 7 100 (fun _ => PFails) x_hello = VRet false true /\
+  v_json 7 4 (fun _ => PTree doc7) x_hello = VRet false true /\
+  depth (JObj []) = 1 /\ measure_depth 0 (JObj []) 0 = 1 /\ measure_depth (-1) JAtom 0 = 0 /\
+  (exists r st', icheck py_cc [v_length 0 100; v_json 5 100 (fun _ => PTree doc7)] ist0 x_hello = (st', IOk r) /\
+                 ir_allowed r = false /\ ir_errors r = 1 /\ ir_matched r = []) /\
+  (exists r st', icheck py_cc [v_length 0 100; v_json 7 100 (fun _ => PTree doc7)] ist0 x_hello = (st', IOk r) /\
+                 ir_allowed r = true).
+Proof. vm_compute. repeat split; try reflexivity; eexists; eexists; repeat split; reflexivity. Qed.
+
 (* before 6201060: Membrane.filter raised on a lone surrogate (model: None) *)
 Lemma c10_legacy_surrogate_refuted :
   exists cfg st c, mfilter_legacy cfg st c = None.
